@@ -2797,12 +2797,17 @@ def cmpxchg(info, a, b):
     return e
 
 def cmpxchg8b(info, a):
-    # TODO: emulation is not valid
+    # the quadword is compared with edx:eax; when equal zf = 1 and it takes
+    # ecx:ebx, otherwise zf = 0 and edx:eax is loaded with it
+    m = ExprMem(a.arg, 64, a.segm)
+    acc = ExprCompose([(eax, 0, 32), (edx, 32, 64)])
+    new = ExprCompose([(ebx, 0, 32), (ecx, 32, 64)])
+    cond = ExprOp('-', m, acc)
     e = []
-    e.append(ExprAff(a, ExprOp('concat',ecx,ebx)))
-    e.append(ExprAff(edx, a))
-    e.append(ExprAff(eax, a))
-    e.append(ExprAff(zf, ExprOp('comparison')))
+    e.append(ExprAff(zf, ExprCond(cond, ExprInt_from(zf, 0), ExprInt_from(zf, 1))))
+    e.append(ExprAff(m, ExprCond(cond, m, new)))
+    e.append(ExprAff(eax, ExprCond(cond, m[0:32], eax)))
+    e.append(ExprAff(edx, ExprCond(cond, m[32:64], edx)))
     return e
 
 def bound(info, a, b):
